@@ -275,9 +275,9 @@ func (w *wk) invoke(cl *callable, args, kwv []int, kwn []string, ctr *int) (v st
 		_ = v.String() // a returned value must at least be printable,
 		_ = v.Type()
 		_ = v.Truth()
-		_, _ = v.Hash()              // hashable or refused,
-		_, _ = starlark.Equal(v, v)  // comparable with itself,
-		v.Freeze()                   // and freezable (what happens to it when stored in a global)
+		_, _ = v.Hash()             // hashable or refused,
+		_, _ = starlark.Equal(v, v) // comparable with itself,
+		v.Freeze()                  // and freezable (what happens to it when stored in a global)
 	}
 	return v, err, steps
 }
